@@ -50,6 +50,37 @@ func (P *Prog) numericCoercers() map[*ssa.Function]string {
 					}
 				}
 			}
+			// a shared builder stores its coercer *parameter*: the coercers are what its call sites pass
+			if prm, isP := cvi(st.Val).(*ssa.Parameter); isP && prm.Parent() == fn {
+				if _, f := fieldVar(st.Addr); f != nil {
+					if owner := P.fieldOwner(f); owner != nil && owner.Obj().Name() == "NumberSchema" && P.roleName(f) == "coercer" {
+						idx := -1
+						for i, q := range fn.Params {
+							if q == prm {
+								idx = i
+							}
+						}
+						if sites, closed := P.closedCallSites(fn); closed && idx >= 0 {
+							for _, site := range sites {
+								if idx >= len(site.Common().Args) {
+									continue
+								}
+								switch y := cv(site.Common().Args[idx]).(type) {
+								case *ssa.Function:
+									if y.Blocks != nil && inModule(funcPkgPath(y)) {
+										out[originOf(y)] = "NumberSchema.coercer set through " + fname(fn)
+									}
+								case *ssa.MakeClosure:
+									if g, ok := y.Fn.(*ssa.Function); ok {
+										out[originOf(g)] = "NumberSchema.coercer set through " + fname(fn)
+									}
+								}
+							}
+						}
+					}
+				}
+				return
+			}
 			if target == nil || target.Blocks == nil {
 				return
 			}
